@@ -74,6 +74,13 @@ def check(ctx):
         "look-ups keyed by a data value (listed under information) are not decided beyond sibling agreement: the repository contains no domain specification of the data",
         "between two consecutive change dates nothing changes; first and last day of every interval are evaluated",
     ]
+    # the per-date environments below are computed with a *model* of the parameter loader and of the function
+    # selection; the anchors of that model (selectors, look-ups at other dates, alias shortcuts, activity test) are
+    # re-read from the source here - a deviating loader makes the environment of some dates differ from the model
+    from .c07 import order_domain
+
+    ctx.assumptions.append("rules O1-O7 (shared with C07) tie the loader / selection code to the model the per-date environments are computed with")
+    order_domain(ctx, repo)
     ctx.rule("K0", "the parameter environment of the date can be set up (every deviation_from / access_different_date / piecewise spec / derived parameter resolves)")
     ctx.rule("K1", "the sub-DAG reachable from the default targets is acyclic")
     ctx.rule("K2", "every default target exists and every leaf of the reachable sub-DAG is a documented input variable")
